@@ -124,6 +124,15 @@ func c15RunScenario(sc c15Scenario) (res c15ScenarioOut) {
 	var started, done, spawned atomic.Int64
 	// maxRecv: the highest item any consumer has taken out of its channel so far (-1 = none). An item that somebody has received has
 	// been taken from the input stream, so a consumer whose SpawnOutput is CALLED afterwards is inserted behind it and must not get it.
+	// idGate: in scenarios with a double despawn the pair "DespawnOutput(id); DespawnOutput(id) again" is atomic with respect to SpawnOutput calls
+	// (otherwise the id may already belong to a consumer that attached in between, and the second call would legitimately remove THAT one)
+	var idGate sync.Mutex
+	gated := false
+	for _, c := range sc.Consumers {
+		if c.DoubleDespawn {
+			gated = true
+		}
+	}
 	var maxRecv atomic.Int64
 	maxRecv.Store(-1)
 	noteRecv := func(v int64) {
@@ -245,6 +254,10 @@ func c15RunScenario(sc c15Scenario) (res c15ScenarioOut) {
 					}
 					spc <- sr
 				}()
+				if gated {
+					idGate.Lock()
+					defer idGate.Unlock()
+				}
 				sr.id, sr.ch, sr.err = f.SpawnOutput()
 			}()
 			var sr spawnRes
@@ -358,8 +371,17 @@ func c15RunScenario(sc c15Scenario) (res c15ScenarioOut) {
 					}
 					dsc <- [2]string{e, p}
 				}()
+				if c.DoubleDespawn {
+					idGate.Lock()
+					defer idGate.Unlock()
+				}
 				if err := f.DespawnOutput(sr.id); err != nil {
 					e = err.Error()
+				} else if c.DoubleDespawn {
+					func() {
+						defer func() { recover() }()
+						f.DespawnOutput(sr.id) // the id is not registered any more: answers with its error, must leave no trace
+					}()
 				}
 			}()
 			select {
@@ -368,12 +390,7 @@ func c15RunScenario(sc c15Scenario) (res c15ScenarioOut) {
 				o.DespawnMs = float64(time.Since(td).Microseconds()) / 1000
 				o.DespawnReturned = true
 				o.DespawnErr = ep[0]
-				if c.DoubleDespawn && ep[0] == "" && ep[1] == "" {
-					func() {
-						defer func() { recover() }()
-						f.DespawnOutput(sr.id)
-					}()
-				}
+
 				if ep[1] != "" {
 					o.Panic = "DespawnOutput: " + ep[1]
 				}
